@@ -1770,6 +1770,22 @@ fn cfg_numbers(harness: &str, preset: &str, seed: u64, ops: usize) -> Option<Str
             table.iter().map(|x| x.to_string()).collect::<Vec<_>>().join(" ")
         ).trim_end().to_string());
     }
+    if harness == "dst-api" && preset == "sim" {
+        let (variant, nodes, p, script) = crate::c20_more::dst_api_script(seed, ops)?;
+        let c = if variant == 0 {
+            let mut fc = FaultConfig::new();
+            fc.set(faults::process::CRASH, p);
+            let mut c = redis_sim::simulator::dst::DSTConfig::new(seed);
+            c.fault_config = fc;
+            c
+        } else {
+            redis_sim::simulator::dst::DSTConfig::chaos(seed).with_crash_config(redis_sim::simulator::CrashConfig { min_recovery_time_ms: 5, max_recovery_time_ms: 50, ..Default::default() })
+        };
+        let init_nodes = if variant == 0 { c.node_count } else { nodes };
+        let flat: Vec<String> = script.iter().map(|(a, b, c)| format!("{} {} {}", a, b, c)).collect();
+        return Some(format!("{} {} {} {} {} {} {} {} {} {} {}", nodes, init_nodes, c.fault_config.get(faults::process::CRASH).to_bits(), c.crash_config.enable_buggify_crashes as u8,
+            c.enable_clock_skew as u8, c.max_clock_skew_ms, c.max_clock_drift_ppm, c.crash_config.min_recovery_time_ms, c.crash_config.max_recovery_time_ms, crate::cfg::CODE_DST_SORTS_NODES as u8, flat.join(" ")));
+    }
     if harness == "scenario-timing" {
         let sc = crate::c20_more::scenario_of(preset, seed, ops)?;
         let (en, bits) = match sc.buggify { Some(p) => (1u8, p.to_bits()), None => (0, 0) };
@@ -2056,6 +2072,12 @@ fn part_b(a: &Args, out: &mut Out) {
                             }
                         }
                     }
+                }
+                if fam.name == "dst-api" && *preset == "sim" {
+                    // this preset of an otherwise explored family is predicted by the model (fresh process: own statistics)
+                    let cfgn = cfg_numbers(fam.name, preset, seed, ops).expect("cfg numbers");
+                    let t = &traces[0];
+                    out.op(format!("RUN dst-api sim {} {} {}", seed, ops, cfgn), format!("{} | {}", trace_digest(&t.lines), t.lines.last().cloned().unwrap_or_default()));
                 }
                 if fam.modelled {
                     let cfgn = cfg_numbers(fam.name, preset, seed, ops).expect("cfg numbers");
